@@ -30,6 +30,12 @@ PROPERTY = {
 def run_both(spec, cfg, res: CaseResult):
     rm = RefModel(spec)
     sp = rm.state_paths
+    cols = None
+    if any(e.get("sp") is not None for e in spec["edges"]):
+        # gamma-kernel edges: the reference is the explicitly augmented system, restricted to the user's variables
+        from ..model import augment_gamma
+        rm = RefModel(augment_gamma(spec))
+        cols = [rm.state_paths.index(p) for p in sp]
     outputs = {f"v{i}": p for i, p in enumerate(sp)}
     dt = cfg["dt"]
     steps = cfg["steps"]
@@ -38,6 +44,8 @@ def run_both(spec, cfg, res: CaseResult):
     if cfg.get("matrix_sparseness") is not None:
         kw["matrix_sparseness"] = cfg["matrix_sparseness"]
     ref = rm.simulate(steps, dt, solver="euler")[:steps]
+    if cols is not None:
+        ref = ref[:, cols]
     if not np.all(np.isfinite(ref)) or np.max(np.abs(ref)) > 1e6:
         res.rejected = "reference trajectory not finite/benign"
         return
@@ -169,7 +177,7 @@ class IndexedEdgesArm(TrajArm):
     name = "indexed_edges"
     budget = {"quick": 300, "thorough": 4000}
     min_per_shard = 10
-    required_labels = ("ring", "partial_permutation", "sparseness=1", "merged>=4")
+    required_labels = ("ring", "partial_permutation", "sparseness=1", "merged>=4", "delays:discrete", "delays:gamma")
 
     def strategy(self, ctx):
         @st.composite
@@ -199,9 +207,27 @@ class IndexedEdgesArm(TrajArm):
             pairs = list(draw(st.permutations(pairs)))
             spec["edges"] = [{"s": f"p{i}/{sv}", "t": f"p{j}/{tv}", "w": round(0.3 + 0.21 * k * (-1) ** k, 3), "d": None, "sp": None,
                               "et": None, "scope": ""} for k, (i, j) in enumerate(pairs)]
-            cfg = {"vectorize": True, "dt": 0.01, "steps": draw(st.integers(10, 16)),
+            steps = draw(st.integers(10, 16))
+            delays = draw(st.sampled_from([None, None, "discrete", "gamma"]))
+            if delays == "discrete":
+                # delays of 2..6 steps, one value for all edges or one per edge
+                same = draw(st.booleans())
+                d0 = draw(st.integers(2, 6))
+                for e in spec["edges"]:
+                    e["d"] = round(0.01 * (d0 if same else draw(st.integers(2, 6))), 4)
+                steps = draw(st.integers(16, 24))
+            elif delays == "gamma":
+                # unit-gain gamma kernels: one (delay, spread) pair for all edges (a single chain group) or two pairs
+                pairs = [(0.1, 1), (0.2, 2), (0.1, 3)]
+                k0 = draw(st.integers(0, 2))
+                two = draw(st.booleans())
+                for i, e in enumerate(spec["edges"]):
+                    d, order = pairs[(k0 + (i % 2 if two else 0)) % 3]
+                    e["d"], e["sp"] = d, round(d / float(np.sqrt(order)), 6)
+                steps = draw(st.integers(16, 24))
+            cfg = {"vectorize": True, "dt": 0.01, "steps": steps,
                    "matrix_sparseness": draw(st.sampled_from([1.0, 1.0, 0.5, None]))}
-            return {"spec": spec, "cfg": cfg, "shape": shape}
+            return {"spec": spec, "cfg": cfg, "shape": shape, "delays": delays}
         from ..finding_predicates import repair_case
         return case().map(lambda c: repair_case(c, ctx))
 
@@ -209,7 +235,7 @@ class IndexedEdgesArm(TrajArm):
         res = super().run(case, ctx)
         if case.get("shape") == "none":
             res.rejected = "node type without input or state variable"
-        res.labels = sorted(set(res.labels) | {case.get("shape", "?")})
+        res.labels = sorted(set(res.labels) | {case.get("shape", "?")} | ({"delays:" + case["delays"]} if case.get("delays") else set()))
         return res
 
 
